@@ -87,7 +87,7 @@ def main():
                       "kind_free_text": "explicit TLA+ specification (/verif/spec) checked by TLC; conformance harness (/verif/harness) replays TLC-generated cases on the real code and TLC validates the recorded traces (/verif/trace)"}],
          "checks": checks,
          "not_applicable": na,
-         "notes": "Model-based verification with an explicit TLA+ specification; see DESIGN.md (section 0 = as built). Known findings: known_findings.json (one open, F1 for C14; the fixed list names the 18 defects of the tree repaired by fix: commits). Beyond the 19 properties the specification covers the command line program as a state machine (spec/Program.tla, bound by Trace_Prog16/17/19), the metadata store (spec/MetaStore.tla, Trace_Meta), the spellings of factor triples (spec/Triple.tla, Trace_Triple), the grammars of both input files (spec/Grammar.tla, conformance reported as drift) and the demand lines (spec/Components.tla). ./check --selftest demonstrates the binding (16 corruptions of recorded traces, all noticed). seeded/ holds 170 changes written by independent sub-agents with the checks that catch each."}
+         "notes": "Model-based verification with an explicit TLA+ specification; see DESIGN.md (section 0 = as built). Known findings: known_findings.json (one open, F1 for C14; the fixed list names the 18 defects of the tree repaired by fix: commits). Beyond the 19 properties the specification covers the command line program as a state machine (spec/Program.tla, bound by Trace_Prog16/17/19), the metadata store (spec/MetaStore.tla, Trace_Meta), the spellings of factor triples (spec/Triple.tla, Trace_Triple), the grammars of both input files (spec/Grammar.tla, conformance reported as drift) and the demand lines (spec/Components.tla). ./check --selftest demonstrates the binding (16 corruptions of recorded traces, all noticed). seeded/ holds 175 changes written by independent sub-agents with the checks that catch each."}
     json.dump(m, open(os.path.join(ROOT, "MANIFEST.json"), "w"), indent=1)
     print("MANIFEST.json:", len(checks), "checks,", len(na), "not claimed")
 
